@@ -799,7 +799,6 @@ func (it *Interp) convert(v Value, from, to types.Type, fn *ssa.Function, pos to
 // WXor is the bytewise/word xor of the analysis (exported for reference constructions).
 func WXor(a, b *Term, width int) *Term { return wXor(a, b, width) }
 
-
 // predTimesAtom decomposes t = P·atom where P is a pure-predicate term and atom an integer atom shared by all monomials.
 func predTimesAtom(t *Term) (*Term, *IAtom) {
 	var atom *IAtom
